@@ -211,6 +211,7 @@ class SymBytesIO(object):
     if isinstance(b, str): raise TypeError("a bytes-like object is required, not 'str'")
     b = SymBytes.of(b)
     n = len(b.b)
+    if n == 0: return 0
     if self.pos > len(self.data): self.data.extend([0] * (self.pos - len(self.data)))
     self.data[self.pos:self.pos + n] = list(b.b)
     self.pos += n
@@ -219,7 +220,7 @@ class SymBytesIO(object):
     if isinstance(n, SymInt): n = n.concretize(what='read(n)')
     if n is None or n < 0: n = len(self.data) - self.pos
     out = SymBytes(self.data[self.pos:self.pos + n])
-    self.pos = min(len(self.data), self.pos + n)
+    self.pos += len(out.b)
     return out.concrete()
   def tell(self): return self.pos
   def seek(self, off, whence=0):
